@@ -169,6 +169,7 @@ class MaskV:
     b: Any
     var: Optional[str] = None
     negated: bool = False
+    var2: Optional[str] = None  # the variable on the right-hand side of the comparison, if it is a name
 
     def canon(self) -> str:
         return f"{'not ' if self.negated else ''}{self.var or vtext(self.a)} {self.op} {vtext(self.b)}"
@@ -311,7 +312,8 @@ class IntervalDomain(Domain):
                 return True
             if a.is_point() and b.is_point() and a.lo == b.lo:
                 return False
-        return MaskV(name, a, b, var)
+        var2 = node.comparators[0].id if isinstance(node, ast.Compare) and len(node.comparators) == 1 and isinstance(node.comparators[0], ast.Name) else None
+        return MaskV(name, a, b, var, False, var2)
 
     def boolop(self, op, values, node):
         return MaskV("bool", values[0], values[-1])
@@ -363,21 +365,23 @@ class IntervalDomain(Domain):
             test = test.operand
         if neg:
             taken = not taken
-        if isinstance(test, ast.Compare) and len(test.ops) == 1 and not (isinstance(test.left, ast.Name) and test.left.id in env and isinstance(env[test.left.id], Iv)) and isinstance(test.comparators[0], ast.Name) and test.comparators[0].id in env and isinstance(env[test.comparators[0].id], Iv):
-            # `0 < k` is `k > 0`: the refined variable on the left
-            flip = {ast.Lt: ast.Gt, ast.Gt: ast.Lt, ast.LtE: ast.GtE, ast.GtE: ast.LtE}
-            op = test.ops[0]
-            test = ast.copy_location(ast.Compare(left=test.comparators[0], ops=[flip.get(type(op), type(op))()], comparators=[test.left]), test)
-        if isinstance(test, ast.Compare) and len(test.ops) == 1 and isinstance(test.left, ast.Name) and test.left.id in env and isinstance(env[test.left.id], Iv):
+        if isinstance(test, ast.Compare) and len(test.ops) == 1:
             fr = interp.stack[-1] if interp.stack else None
-            try:
-                b = interp.eval(test.comparators[0], fr) if fr is not None else None
-            except Exception:
-                b = None
-            if isinstance(b, Iv):
-                r = self._restrict(env[test.left.id], type(test.ops[0]).__name__, b, taken)
-                if r is not None:
-                    env[test.left.id] = r
+            flip = {"Lt": "Gt", "Gt": "Lt", "LtE": "GtE", "GtE": "LtE", "Eq": "Eq", "NotEq": "NotEq"}
+            opname = type(test.ops[0]).__name__
+            left, right = test.left, test.comparators[0]
+            # both readings of the comparison refine their variable: `xmax < x` restricts x as `x > xmax` does
+            for var_node, other, op in ((left, right, opname), (right, left, flip.get(opname))):
+                if op is None or not (isinstance(var_node, ast.Name) and var_node.id in env and isinstance(env[var_node.id], Iv)):
+                    continue
+                try:
+                    b = interp.eval(other, fr) if fr is not None else None
+                except Exception:
+                    b = None
+                if isinstance(b, Iv):
+                    r = self._restrict(env[var_node.id], op, b, taken)
+                    if r is not None:
+                        env[var_node.id] = r
 
     def refine_for_mask(self, env: dict, mask, taken: bool) -> dict:
         """Restrict the compared variable under the mask; returns the saved bindings."""
@@ -388,6 +392,14 @@ class IntervalDomain(Domain):
             r = self._restrict(env[mask.var], mask.op, mask.b, t)
             if r is not None:
                 env[mask.var] = r
+        # the same comparison read from the right: `h < Z` restricts Z as `Z > h` does
+        flip = {"Lt": "Gt", "Gt": "Lt", "LtE": "GtE", "GtE": "LtE", "Eq": "Eq", "NotEq": "NotEq"}
+        if isinstance(mask, MaskV) and mask.var2 and mask.var2 in env and isinstance(env[mask.var2], Iv) and isinstance(mask.a, Iv) and mask.op in flip and mask.var2 not in saved:
+            t = taken != mask.negated
+            saved[mask.var2] = env[mask.var2]
+            r = self._restrict(env[mask.var2], flip[mask.op], mask.a, t)
+            if r is not None:
+                env[mask.var2] = r
         return saved
 
     # -- joins -------------------------------------------------------------
